@@ -90,7 +90,7 @@ def _get_agent_data_old__discrete_space(space, agent_portrayal):
             content = [content]  # noqa: PLW2901
         for agent in content:
             # use all data from agent portrayal, and add x,y coordinates
-            agent_data = agent_portrayal(agent)
+            agent_data = dict(agent_portrayal(agent))
             agent_data["x"] = x
             agent_data["y"] = y
             all_agent_data.append(agent_data)
@@ -112,7 +112,7 @@ def _get_agent_data_new_discrete_space(space: DiscreteSpace, agent_portrayal):
 
     for cell in space.all_cells:
         for agent in cell.agents:
-            agent_data = agent_portrayal(agent)
+            agent_data = dict(agent_portrayal(agent))
             agent_data["x"] = cell.coordinate[0]
             agent_data["y"] = cell.coordinate[1]
             all_agent_data.append(agent_data)
@@ -131,7 +131,7 @@ def _get_agent_data_continuous_space(space: ContinuousSpace, agent_portrayal):
     """
     all_agent_data = []
     for agent in space._agent_to_index:
-        agent_data = agent_portrayal(agent)
+        agent_data = dict(agent_portrayal(agent))
         agent_data["x"] = agent.pos[0]
         agent_data["y"] = agent.pos[1]
         all_agent_data.append(agent_data)
